@@ -30,13 +30,14 @@ THEOREMS['C08'] = ['FB.C08_dup_file_rejected', 'FB.C08_dup_file_no_effect', 'FB.
 THEOREMS['C13'] = ['FB.C13_hash_iff', 'FB.C13_metadata_iff', 'FB.C13_read_replay', 'FB.C13_output_replay']
 THEOREMS['C08'] = THEOREMS.get('C08', [])
 THEOREMS['C09'] = ['FB.Conc.P4.ordered_no_deadlock', 'FB.Conc.P1.claim_unique', 'FB.Conc.P1.executed_at_most_once',
-                   'FB.Conc.P2.count_is_registered', 'FB.Conc.P2.arbitration_counterexample']
+                   'FB.Conc.P2.count_is_registered', 'FB.Conc.P2.arbitration_correct', 'FB.Conc.P2.arbInv_run',
+                   'FB.Conc.P2.arbitration_counterexample_before_fix', 'FB.BuildDirs.started_inv', 'FB.BuildDirs.registerUp_inv']
 THEOREMS['C17'] = ['FB.Conc.P3.C17_no_append_after_close', 'FB.Conc.P3.C17_completed_in_record', 'FB.Conc.P3.C17_sequential_fence',
                    'FB.Conc.P3.straggler_counterexample']
 THEOREMS['C08'] += ['FB.Conc.P1.claim_unique', 'FB.Conc.P1.executed_at_most_once']
 THEOREMS['C04'] = ['FB.C04_exists_iff', 'FB.C04_not_both', 'FB.C04_listDir_iff', 'FB.C04_listDir_errors',
                    'FB.C04_hidden', 'FB.C04_visible_elsewhere', 'FB.BuildDirs.run_inv', 'FB.BuildDirs.handleDirExists_inv',
-                   'FB.BuildDirs.started_inv', 'FB.BuildDirs.error_inv', 'FB.BuildDirs.isRemoved_inv',
+                   'FB.BuildDirs.started_inv', 'FB.BuildDirs.registerUp_inv', 'FB.BuildDirs.error_inv', 'FB.BuildDirs.isRemoved_inv',
                    'FB.BuildDirs.C04_isRemoved_iff_gone', 'FB.BuildDirs.isRemoved_spec', 'FB.BuildDirs.checkMaybeRemoved_spec',
                    'FB.BuildDirs.checkLoop_spec', 'FB.BuildDirs.handleDirExists_qinv', 'FB.BuildDirs.qreach_qinv',
                    'FB.Overlay.not_both', 'FB.Overlay.exists_eq', 'FB.Overlay.filterExisting_sub',
